@@ -229,6 +229,140 @@ def ppt_slides_model(ctx):
         ctx.ev.nontrivial(("pptslides", t["raw"]))
 
 
+def _odp_slide_job(cases):
+    """Build a draw:page element from the model's frames and hand it to the real _extract_slide."""
+    from xml.etree import ElementTree as ET
+    from ..repo import activate
+    activate()
+    import warnings
+    warnings.simplefilter("ignore")
+    from sharepoint2text.parsing.extractors.open_office import odp_extractor as mod
+    from ..docmodel import TOKEN_RE, word
+    fn = getattr(mod, "_extract_slide", None)
+    if fn is None:
+        return {"skip": "odp_extractor._extract_slide not found"}
+    NS = mod.NS
+
+    def q(pfx, tag):
+        return f"{{{NS[pfx]}}}{tag}"
+    # rank -> spelling; equal ranks are spelt alike (exact ties), different ranks in different units:
+    # y: absent (0 px) < 2cm (75.6 px) < 1in (96 px);  x: 5mm (18.9 px) < 1cm (37.8 px)
+    YS, XS = {0: None, 1: "2cm", 2: "1in"}, {0: "5mm", 1: "1cm"}
+    STYLES = {"T": ("TitleText", "MyTitleStyle"), "B": ("BodyText", "OutlineBody2"), "O": ("P1", None)}
+
+    class Ctx:                      # the package: every picture exists
+        def exists(self, name):
+            return True
+
+        def read_bytes(self, name):
+            return b"\x89PNG\r\n\x1a\n" + name.encode()
+
+    def ids(texts):
+        out = []
+        for t in texts:
+            m = TOKEN_RE.fullmatch((t or "").strip())
+            out.append(int(m.group(1) or m.group(2) or m.group(3)) if m else 999)
+        return out
+    res = []
+    for case in cases:
+        frames, n0 = case["frames"], case["n0"]
+        page = ET.Element(q("draw", "page"), {q("draw", "name"): "page1"})
+        for k, f in enumerate(frames):
+            parent = page
+            for d in range(f["g"]):
+                parent = ET.SubElement(parent, q("draw", "g"))
+            at = {q("svg", "x"): XS[f["x"]]}
+            if YS[f["y"]] is not None:
+                at[q("svg", "y")] = YS[f["y"]]
+            fr = ET.SubElement(parent, q("draw", "frame"), at)
+            if f["kind"] == "txt":
+                tb = ET.SubElement(fr, q("draw", "text-box"))
+                for m, (cls, pid) in enumerate(f["paras"]):
+                    st = STYLES[cls][(k + m) % 2]
+                    pe = ET.SubElement(tb, q("text", "p"), {q("text", "style-name"): st} if st else {})
+                    pe.text = word(pid) if pid else ("  " if (k + m) % 2 else None)
+            elif f["kind"] == "tbl":
+                tbl = ET.SubElement(fr, q("table", "table"))
+                cell = ET.SubElement(ET.SubElement(tbl, q("table", "table-row")), q("table", "table-cell"))
+                ET.SubElement(cell, q("text", "p")).text = word(f["id"])
+            else:
+                ET.SubElement(fr, q("draw", "image"), {q("xlink", "href"): f"Pictures/{f['id']}.png"})
+        try:
+            slide, counter = fn(Ctx(), page, 1, n0)
+            obs = {"title": ids([slide.title])[0] if slide.title else 0, "body": ids(slide.body_text), "other": ids(slide.other_text),
+                   "tables": [ids([c for row in t for c in row])[0] if t and t[0] else 999 for t in slide.tables],
+                   "images": [[im.image_index, int(im.href.split("/")[-1].split(".")[0])] for im in slide.images],
+                   "combined": ids(slide.text_combined.split("\n")) if slide.text_combined else []}
+            if counter != n0 + len(slide.images):
+                obs["images"].append([counter, -1])
+            res.append({"slide": obs})
+        except Exception as e:
+            res.append({"exc": f"{type(e).__name__}: {e}"[:200]})
+    return {"obs": res}
+
+
+def odp_slide_model(ctx):
+    """OdpSlide.tla: theorems on all pages of the bounded universe, four sensitivity runs, binding of the real
+    _extract_slide (+ OdpSlide.text_combined) to the machine's function."""
+    from concurrent.futures import ProcessPoolExecutor
+    from ..docrun import from_tla
+    from ..tlaval import iter_dump, to_tla
+    from ..tlc import MachineryError, run_tlc_many
+    invs = "".join(f"INVARIANT {i}\n" for i in ("Inv_StepAgreesWithFunction", "Inv_EveryParagraphOnce", "Inv_ClassOrder",
+                                                  "Inv_ReadingOrder", "Inv_TablesInOrder", "Inv_ImagesNumbered"))
+    consts = "MaxFrames = 3\n MaxY = 1\n MaxG = 1\n" if ctx.thorough else "MaxFrames = 2\n MaxY = 2\n MaxG = 1\n"
+    small = "MaxFrames = 2\n MaxY = 2\n MaxG = 1\n"
+    cfg = f"SPECIFICATION Spec\nCONSTANTS WalkDev = {{}}\n {consts}{invs}PROPERTY Prop_Terminates\n"
+    devs = ["Odp!TextBoxesAfterBody", "Odp!GroupedFrameSkipped", "Odp!XmlOrder", "Odp!NumbersCompared"]
+    dump = ctx.scratch / "odpslide.dump"
+    gen = "MaxFrames = 2\n MaxY = 2\n MaxG = 2\n"
+    runs = run_tlc_many(
+        [("OdpSlide", cfg, dict(scratch=ctx.scratch, expect_fail=True, heap="6g", workers=6))]
+        + [("OdpSlide", f"SPECIFICATION Spec\nCONSTANTS WalkDev = {{\"{d}\"}}\n {small}{invs}", dict(scratch=ctx.scratch, expect_fail=True, workers=3))
+           for d in devs]
+        + [("OdpSlide", f"SPECIFICATION GenSpec\nCONSTANTS WalkDev = {{}}\n {gen}", dict(scratch=ctx.scratch, dump=dump, workers=4))])
+    r, rg = runs[0], runs[-1]
+    ctx.ev.tlc("OdpSlide: every paragraph once, classes and slide text in reading order, tables / pictures in reading order", r)
+    if r.violated:
+        ctx.v.violation(what=f"OdpSlide.tla: the strict model violates {r.violated}", observed=r.output[-1500:])
+    for d, rs in zip(devs, runs[1:-1]):
+        ctx.ev.tlc(f"OdpSlide sensitivity: {d} must violate a theorem", rs, note="expected violation")
+        if not rs.violated:
+            raise MachineryError(f"OdpSlide sensitivity run {d} did not fail")
+    ctx.ev.tlc("OdpSlide GenSpec: pages", rg)
+    cases = sorted(({"frames": from_tla(st["frames"]), "n0": from_tla(st["n0"])} for st in iter_dump(dump)), key=lambda c: json.dumps(c))
+    if len(cases) != rg.distinct:
+        raise MachineryError(f"OdpSlide dump {len(cases)} != {rg.distinct}")
+    limit = 40000 if ctx.thorough else 9000
+    if len(cases) > limit:          # all pages of <= 1 frame, a seeded sample of the two-frame pages
+        rng = random.Random(ctx.seed)
+        small_cases = [c for c in cases if len(c["frames"]) <= 1]
+        cases = small_cases + rng.sample([c for c in cases if len(c["frames"]) > 1], limit - len(small_cases))
+    chunks = [cases[k:k + 1500] for k in range(0, len(cases), 1500)]
+    with ProcessPoolExecutor(8) as ex:
+        obs = list(ex.map(_odp_slide_job, chunks))
+    traces = []
+    for ch, o in zip(chunks, obs):
+        if "skip" in o:
+            ctx.log("odp-slide binding skipped: " + o["skip"])
+            return
+        for case, x in zip(ch, o["obs"]):
+            if "exc" in x:
+                ctx.v.violation(what=f"_extract_slide raised on {json.dumps(case)[:300]}: {x['exc']}", case=case)
+                continue
+            traces.append({"id": f"odpslide:{len(traces)}", "hdr": {"fmt": "odp", "doc": case}, "raw": json.dumps(x["slide"])[:300],
+                           "ev": [{"a": "Slide", "frames": case["frames"], "n0": case["n0"], "slide": x["slide"]}]})
+
+    def cfgfn(dev):
+        return f"SPECIFICATION TraceSpec\nCONSTANTS WalkDev = {to_tla(set(dev))}\nCONSTRAINT TraceAccept\n"
+    validate_with_findings(ctx, "OdpSlideTrace", traces, {"KF-C03-13": "Odp!TextBoxesAfterBody"},
+                           lambda t, e: f"odp slide differs from OdpSlide.tla: frames {json.dumps(e['frames'])[:300]} -> {t['raw']}",
+                           lambda t: "odp_extractor.py:_extract_slide / data_types.py:OdpSlide.text_combined", cfg=cfgfn)
+    ctx.ev.replayed(len(traces))
+    for t in traces[:: max(1, len(traces) // 200)]:
+        ctx.ev.nontrivial(("odpslide", t["raw"]))
+
+
 def run(ctx):
     ev = ctx.ev
     rng = random.Random(ctx.seed)
@@ -262,6 +396,7 @@ def run(ctx):
     ev.replayed(len(traces))
     sections_model(ctx)
     ppt_slides_model(ctx)
+    odp_slide_model(ctx)
     ev.set(rule="same TLC-enumerated document suite as C02 (flow documents incl. headings; decks / workbooks / paged "
                 "documents of 1..3 units incl. empty units) x formats; non-trivial = multi-unit or non-empty unit text",
            exhaustive=bool(ctx.thorough), constants={"flow_formats": FLOW_FORMATS, "multi_unit_formats": MULTI,
